@@ -32,6 +32,14 @@ func kindNames(kinds []int) string {
 	return strings.Join(s, " ")
 }
 
+// judgeSeqEnum is judgeSeq for the exhaustive enumeration: the cases are distinct by construction (distinct kind
+// sequence x spacing), so they are counted instead of hashed (length 6 has 64M sequences).
+func judgeSeqEnum(c *Ctx, kinds []int, lex []string, tight bool, text string) {
+	c.noHash = true
+	judgeSeq(c, kinds, lex, tight, text)
+	c.noHash = false
+}
+
 func judgeSeq(c *Ctx, kinds []int, lex []string, tight bool, text string) {
 	want := gen.Recognise(kinds)
 	got := c.Val([]string{text})
@@ -46,7 +54,11 @@ func judgeSeq(c *Ctx, kinds []int, lex []string, tight bool, text string) {
 		c.CountIf(acc, "unspecified_accepted")
 		return
 	}
-	c.Distinct(gen.HashStr(text))
+	if c.noHash {
+		c.DistinctN(1)
+	} else {
+		c.Distinct(gen.HashStr(text))
+	}
 	if want == gen.RefAccept {
 		c.Inc("ref_accept")
 		for _, k := range kinds {
@@ -76,7 +88,7 @@ func replayC05(c *Ctx, rule string, raw json.RawMessage) {
 
 func runC05(c *Ctx, phase string) {
 	u := c.U
-	L := c.Pick(4, 5)
+	L := c.Pick(4, 6)
 	nLong := c.Pick(120000, 600000)
 	c.Meta(fmt.Sprintf("every sequence over the 20 token kinds {ACT, LONLY, LLATER, SONLY, SLATER, DEP, FOLD, EXC, UNK, LREF, DREF, ':', '(', ')', AND, OR, WITH, '+', ' +', lower-case operator} "+
 		"up to length %d, each kind freshly instantiated from the shipped lists (random letter case for listed ids one time in four), rendered loose (one space) and tight (no space around parentheses and ':'); "+
@@ -119,10 +131,10 @@ func runC05(c *Ctx, phase string) {
 				lex[i] = u.Lexeme(k, r)
 			}
 			loose := gen.RenderTokens(kinds, lex, false, nil)
-			judgeSeq(c, kinds, lex, false, loose)
+			judgeSeqEnum(c, kinds, lex, false, loose)
 			tight := gen.RenderTokens(kinds, lex, true, nil)
 			if tight != loose {
-				judgeSeq(c, kinds, lex, true, tight)
+				judgeSeqEnum(c, kinds, lex, true, tight)
 			}
 			if c.WantSample() && gen.Recognise(kinds) == gen.RefAccept && n >= 3 {
 				c.Sample(map[string]any{"kinds": kindNames(kinds), "loose": loose, "tight": tight, "grammar": "accept"})
